@@ -61,6 +61,23 @@ add("C19", "vcheck", "exploration", "property testing (proptest) of long insert/
     "Long histories of insert/remove cycles over 1..300 distinct aliases and indexed values (crossing the 64-slot minimum capacity and all rehash thresholds) on a StorageData wrapper that counts storage calls: a query exceeding 10^6 calls (largest legitimate one < 10^4) is reported as non-terminating.",
     "Non-termination is decided by a work budget on storage calls, which every probe loop performs; a loop that touches no storage would only be caught by the outer watchdog (undecided, not a violation).", "DESIGN 3/C19")
 
+CRASH = "crash-point enumeration driven by proptest-generated programs: a source hook fires before every mutating file-system call; the engine copies the files at each event, recovers every image with the real open path and compares with the reference state"
+add("C01", "vcheck", "fault_enumeration", CRASH,
+    "Generated storage programs (all storage operations, nested transactions to depth 3, clean close or drop with unfinished transactions) on FileStorage and FileStorageMemoryMapped; every crash image (quick: all events of programs with <=80 events, else a stratified sample; thorough: all), torn log records cut inside the record being appended, repeated recovery (idempotence, empty log) and, in thorough, crashes during recovery itself, must recover to exactly the records, dead indexes and file length of the last outermost commit.",
+    "Models process death (all completed calls persist, nothing is reordered), which is what the code relies on (it never syncs). Needs hooks H1/H2. The reference storage (index->bytes) is trusted; it is validated against the live storage by C04.", "DESIGN 3/C01, 2.5")
+add("C02", "vcheck", "fault_enumeration", CRASH,
+    "Generated histories of mutating queries and transactions on Db and DbFile with a final defragmenting drop; every selected crash image must open with both Db::new and DbFile::new and the full canonical dump must complete with every query Ok; cases run in isolated child processes with a 64 MiB single-allocation cap so that an abort or enormous allocation is attributed to the image.",
+    "Process-death model as C01. Images taken during database creation are not part of the property (no history yet). Needs hooks H1/H2.", "DESIGN 3/C02")
+add("C03", "vcheck", "fault_enumeration", CRASH,
+    "Same engine as C02: the exact canonical dump of every reopened crash image (both openers) must equal the exact dump of the live database taken before or after the interrupted step (query or multi-query transaction, committed or rolled back).",
+    "The before/after dumps come from the live database and are themselves validated against the reference model at every step. Needs hooks H1/H2.", "DESIGN 3/C03")
+add("C04", "vcheck", "exploration", MB,
+    "Generated storage programs (up to 60 / 400 operations, sizes around the 16-byte header, 5% invalid operations) on MemoryStorage, FileStorage and FileStorageMemoryMapped against a reference map index->bytes, compared after every step; optimize must leave no unused space; reopen must preserve everything.",
+    "Uses the VerifStorage wrapper (hook H1) because Storage is crate-private. move_at semantics (copy, then zero the non-overlapped remainder of the source) is the contract DbVec relies on and the storage unit tests document.", "DESIGN 3/C04")
+add("C32", "vcheck", "fault_enumeration", "fault injection through a public StorageData wrapper, positions and histories generated by proptest, reference model for the behaviour after the fault",
+    "Generated histories on DbImpl<Faulty<FileStorage>>: one generated storage write/resize call inside one generated query fails (clean or short write); the query must return Err and leave no effect, later queries must conform to the reference model and survive close + reopen with both file variants. The listed known findings (one root cause) are met on most fault positions; they are counted and the campaign continues.",
+    "Only write/resize calls made inside queries are failed (never Drop/reopen). Failure symptoms are classified coarsely (six classes) because they share one root cause, see known_findings.json.", "DESIGN 3/C32, appendix D")
+
 TITLES = {}
 for l in open("/verif/properties.jsonl"):
     pr = json.loads(l)
